@@ -253,7 +253,7 @@ def handle_candidates(res, s, e, p, r, cand, dbin, known, approx, opts):
     extra = []
     for nm, m in (r.get('cex_models') or {}).items():
         extra += prove.complete_model(e, p, m)
-    found, npc = prove.numeric_search(e, p, cand, nsamples=opts.get('nsamples', 60), seed=opts.get('seed', 0), tol=tol, extra=extra)
+    found, npc = prove.numeric_search(e, p, cand, nsamples=opts.get('nsamples', 60), seed=opts.get('seed', 0), tol=tol, extra=extra, scale_inputs=approx)
     for name in cand:
         key = '%s:p%d:%s' % (e.name, p.idx, name)
         if name not in found:
@@ -462,3 +462,99 @@ def replay_trunc(res, ename, nm, num, dbin):
         lv = cv[0]
         return {'reproduced': bool(abs(lv - num['generic']) > num['tol']), 'double_taylor_value': lv, 'reference': num['generic'], 'binary': dbin}
     return None
+
+# ---------------------------------------------------------------------------
+# COND-lite pipeline
+def _cond_job(args):
+    fn, ename, pidx, opts = args
+    from . import cond
+    try:
+        if fn not in _DAGCACHE:
+            _DAGCACHE.clear(); _DAGCACHE[fn] = {e.name: e for e in dagm.load(fn)}
+        e = _DAGCACHE[fn][ename]; p = e.paths[pidx]
+        keep = opts.get('out_prefixes')
+        if keep is not None: p.outs = {k: v for k, v in p.outs.items() if k.startswith(tuple(keep))}
+        q0 = smt.STATS.queries; t0 = smt.STATS.time; p0 = smt.STATS.procs
+        r = cond.cond_path(e, p, opts)
+        st = {'queries': smt.STATS.queries - q0, 'time': smt.STATS.time - t0, 'procs': smt.STATS.procs - p0}
+        return (fn, ename, pidx, r, st, None)
+    except Exception:
+        return (fn, ename, pidx, None, {'queries': 0, 'time': 0, 'procs': 0}, traceback.format_exc())
+
+def run_cond(res, specs, opts):
+    from . import cond
+    import mpmath as mp
+    mp.mp.dps = 60
+    rundir = os.path.join(build.WORK, 'run', res.pid); os.makedirs(rundir, exist_ok=True)
+    targets = [(s['src'], s['defs'], 'sym') for s in specs] + [(s['src'], s['defs'], 'double') for s in specs]
+    built = build.build_all(targets)
+    known = load_known(res.pid)
+    jobs = []; meta = {}
+    for k, s in enumerate(specs):
+        b, err, secs = built[k]
+        if b is None:
+            res.errors.append({'what': 'harness does not compile', 'spec': s['src'] + ':' + ','.join(s['defs']), 'diag': err[-3000:]}); continue
+        fn = os.path.join(rundir, os.path.basename(b) + '.cond%d.dag' % k)
+        rc, out = build.run_harness(b, fn, [s.get('filter', '.*')])
+        if rc != 0:
+            res.errors.append({'what': 'harness run failed', 'spec': s['src'], 'diag': out[-2000:]}); continue
+        meta[fn] = (s, built[len(specs) + k][0])
+        o2 = dict(opts, out_prefixes=s.get('out_prefixes'))
+        for e in dagm.load(fn):
+            for p in e.paths: jobs.append((fn, e.name, p.idx, o2))
+    stats = {'paths': 0, 'bound_queries': 0, 'bounded': 0, 'refuted_in_model': 0, 'reproduced': 0, 'model_only': 0, 'undecided': 0}
+    ents = {}
+    for fn, ename, pidx, r, st, err in pool_map(_cond_job, jobs, opts, res):
+        res.solver['queries'] += st['queries']; res.solver['time'] += st['time']; res.solver['procs'] += st['procs']
+        if err:
+            res.errors.append({'what': 'cond exception', 'entry': ename, 'path': pidx, 'diag': err[-3000:]}); continue
+        if r.get('skip') or r.get('cf_error'):
+            if r.get('cf_error'): res.undecided.append('cond %s path %d: %s' % (ename, pidx, r['cf_error']))
+            continue
+        stats['paths'] += 1; res.paths += 1; res.functions.add(ename)
+        stats['bound_queries'] += r['queries']
+        s, dbin = meta[fn]
+        if fn not in ents: ents[fn] = {e.name: e for e in dagm.load(fn)}
+        e = ents[fn][ename]; p = e.paths[pidx]
+        for key, stt in sorted(r['claims'].items()):
+            res.obligations += 1; res.claims += 1
+            full = 'cond:%s:%s' % (ename, key)
+            if stt == 'bounded':
+                res.discharged += 1; stats['bounded'] += 1
+                if len(res.samples) < 10: res.samples.append({'entry': ename, 'claim': key, 'status': 'amplification bounded by solver'})
+                continue
+            if stt == 'undecided':
+                stats['undecided'] += 1; res.undecided.append('%s: amplification bound undecided within the cap' % full); continue
+            stats['refuted_in_model'] += 1
+            nm = key.split('@')[0]; di = [k for k, (lo, hi) in enumerate(cond.DECADES) if '@sigma(%g,%g]' % (float(lo), float(hi)) in key][0]
+            worst = None
+            for asg in cond.concretise(e, p, nm, di, n=opts.get('cond_points', 16), seed=opts.get('seed', 0)):
+                val = dagm.numeval(e.nodes, [p.outs[nm]], asg, mp)
+                ref = val[p.outs[nm]]
+                inp = os.path.join(rundir, 'cond_in.txt')
+                with open(inp, 'w') as f:
+                    for k2, v in asg.items(): f.write('%s:%s %s\n' % (ename, e.nodes[k2].name, float(v).hex()))
+                outf = os.path.join(rundir, 'cond_out.txt')
+                rc, txt = build.run_harness(dbin, outf, [re_escape(ename), '--input', inp])
+                got = None
+                for ce in dagm.load(outf):
+                    if ce.name == ename and ce.paths: got = ce.paths[0].outs.get(nm)
+                if got is None or isinstance(got, int): continue
+                scale = max([1.0] + [abs(float(v)) for v in asg.values()] + [abs(float(ref))])
+                errv = abs(got - float(ref)) / scale
+                if worst is None or errv > worst[0]: worst = (errv, {e.nodes[k2].name: float(v) for k2, v in asg.items()}, got, float(ref))
+            if worst is None or worst[0] <= float(cond.TOL):
+                stats['model_only'] += 1
+                res.undecided.append('%s: amplification bound refuted in the rounding model, not reproduced on the double build (worst relative error %.2g)' % (full, worst[0] if worst else -1)); continue
+            stats['reproduced'] += 1
+            kf = match_known(known, full)
+            if kf: res.known.append((full, kf.get('what', ''))); continue
+            d = os.path.join(VERIF, 'replay', res.pid); os.makedirs(d, exist_ok=True)
+            rfn = os.path.join(d, full.replace(':', '__').replace('(', '_').replace(')', '').replace(',', '_').replace('@', '_at_').replace(']', '') + '.json')
+            json.dump({'property': res.pid, 'key': full, 'entry': ename, 'claim': key, 'mode': 'COND', 'inputs': worst[1], 'double_build_value': worst[2], 'reference_60_digits': worst[3], 'relative_error': worst[0], 'tolerance': float(cond.TOL),
+                       'replay': {'binary': dbin, 'reproduced': True}}, open(rfn, 'w'), indent=1)
+            res.violations.append((full, rfn))
+    res.extra.setdefault('cond', {})
+    for k, v in stats.items(): res.extra['cond'][k] = res.extra['cond'].get(k, 0) + v
+    res.axioms.add('rounding model (COND-lite): relative error <= 2u on every libm result (sin, cos, sqrt), first order, arithmetic roundings not modelled')
+    return stats
